@@ -25,6 +25,31 @@ def _m(e, cls, name):
     return c.methods[name]
 
 
+def binder_method(e, cls):
+    """The method of `cls` that (re)binds self.acquire / self.release (called by the constructor and by __setstate__)."""
+    c = _cls(e, cls)
+    out = [m for nm, m in c.methods.items() if nm not in ("__init__", "__setstate__") and
+           {"acquire", "release"} <= {n.attr for n in func_nodes(m) if isinstance(n, ast.Attribute) and isinstance(n.ctx, ast.Store) and isinstance(n.value, ast.Name)
+                                      and m.params and n.value.id == m.params[0]}]
+    if len(out) != 1:
+        raise AnalysisError(f"anchor vanished: the method of {cls} binding acquire/release")
+    return out[0]
+
+
+def calls_binder(e, func, cls):
+    b = binder_method(e, cls)
+    return any(isinstance(n, ast.Call) and (b.qualname in e.callees_of(n) or norm(n.func) == f"{func.params[0]}.{b.qualname.split('.')[-1]}") for n in func_nodes(func))
+
+
+def cleanup_routine(e):
+    """The routine that unlinks a named semaphore and unregisters it from the tracker."""
+    c = _cls(e, "SemLock")
+    out = [m for m in c.methods.values() if any(isinstance(n, ast.Call) and _is_call_to(n, "sem_unlink") for n in func_nodes(m))]
+    if len(out) != 1:
+        raise AnalysisError("anchor vanished: the SemLock routine calling sem_unlink")
+    return out[0]
+
+
 def _is_call_to(c, dotted_suffix):
     return norm(c.func) == dotted_suffix or norm(c.func).endswith("." + dotted_suffix)
 
@@ -64,12 +89,12 @@ def r_sem_life(e, R):
             R.check(okname, "R-SEM-LIFE", "SemLock.__init__: the registered name is the name of the created semaphore", init.short, norm(rc.args[0]),
                     "the registered name is not the created semaphore's name", e.loc(init, rc))
             cb = {v[1] for v in e.pt.ev(init, fc.args[1]) if v[0] == "func"} if len(fc.args) > 1 else set()
-            R.check(cb == {f"{SY}:SemLock._cleanup"}, "R-SEM-LIFE", "SemLock.__init__: the finaliser callback is the cleanup routine", init.short,
+            R.check(cb == {cleanup_routine(e).qualname}, "R-SEM-LIFE", "SemLock.__init__: the finaliser callback is the cleanup routine", init.short,
                     norm(fc)[:70], f"the finaliser calls {sorted(cb)}", e.loc(init, fc))
             R.check(isinstance(fc.args[0], ast.Name) and fc.args[0].id == init.params[0], "R-SEM-LIFE", "SemLock.__init__: the finaliser is tied to the object's lifetime",
                     init.short, norm(fc)[:40], "the finaliser is not attached to the semaphore object", e.loc(init, fc))
     # _cleanup: unlink then, in finally, unregister
-    cl = _m(e, "SemLock", "_cleanup")
+    cl = cleanup_routine(e)
     cg = e.cfg(cl)
     unl = [n for n in cg.nodes for c in calls_in(n) if _is_call_to(c, "sem_unlink")]
     unr = [n for n in cg.nodes for c in calls_in(n) if _is_call_to(c, "unregister") and len(c.args) == 2 and isinstance(c.args[1], ast.Constant)
@@ -195,7 +220,7 @@ def r_sem_table(e, R):
             R.check(okd, "R-SEM-TABLE", "SemLock.__init__: unlink_now is False (the name must stay until the finaliser/tracker unlinks it)", init.short, norm(n)[:70],
                     "the semaphore name is unlinked at creation: children cannot rebuild it by name", e.loc(init, n))
     # methods delegate to the C object
-    mm = _m(e, "SemLock", "_make_methods")
+    mm = binder_method(e, "SemLock")
     okm = {norm(n.targets[0]): norm(n.value) for n in func_nodes(mm) if isinstance(n, ast.Assign)}
     R.check(okm.get("self.acquire") == "self._semlock.acquire" and okm.get("self.release") == "self._semlock.release", "R-SEM-TABLE",
             "SemLock: acquire/release are the C object's own methods", mm.short, str(okm), "acquire/release do not delegate to the C semaphore", e.loc(mm, mm.node))
@@ -243,7 +268,7 @@ def r_state_sym(e, R, which=("Queue", "SimpleQueue", "Condition", "SemLock")):
     if "Condition" in which:
         _state_pair(e, R, f"{SY}:Condition")
         ss = _m(e, "Condition", "__setstate__")
-        R.check(any(isinstance(n, ast.Call) and norm(n.func) == "self._make_methods" for n in func_nodes(ss)), "R-STATE-SYM",
+        R.check(calls_binder(e, ss, "Condition"), "R-STATE-SYM",
                 "Condition.__setstate__ rebinds acquire/release", ss.short, "_make_methods()", "an unpickled Condition has no acquire/release", e.loc(ss, ss.node))
     if "SemLock" in which:
         gs, ss = _m(e, "SemLock", "__getstate__"), _m(e, "SemLock", "__setstate__")
@@ -257,7 +282,7 @@ def r_state_sym(e, R, which=("Queue", "SimpleQueue", "Condition", "SemLock")):
                   and isinstance(n.args[0].value, ast.Name) and n.args[0].value.id == ss.params[1] for n in func_nodes(ss))
         R.check(okr, "R-STATE-SYM", "SemLock.__setstate__ rebuilds the C semaphore from the shipped state", ss.short, "_SemLock._rebuild(*state)",
                 "an unpickled lock is not rebuilt from the shipped handle/name", e.loc(ss, ss.node))
-        R.check(any(isinstance(n, ast.Call) and norm(n.func) == "self._make_methods" for n in func_nodes(ss)), "R-STATE-SYM",
+        R.check(calls_binder(e, ss, "SemLock"), "R-STATE-SYM",
                 "SemLock.__setstate__ rebinds acquire/release", ss.short, "_make_methods()", "an unpickled lock has no acquire/release", e.loc(ss, ss.node))
         R.trust("C API: _multiprocessing.SemLock._rebuild(handle, kind, maxvalue, name)")
 
